@@ -60,33 +60,47 @@ Record node := mkNode {
   n_lang : bool ;
   n_space : bool ;
   n_styles : list (prop * sval) ;
-  n_anims : list (prop * sval) }.
+  n_anims : list (prop * sval) ;
+  n_users : list nat ;
+  n_text : nat }.
 
-Definition set_doc (v : option nat) (n : node) : node := mkNode (n_kind n) v (n_parent n) (n_first n) (n_last n) (n_next n) (n_prev n) (n_region n) (n_begin n) (n_end n) (n_id n) (n_lang n) (n_space n) (n_styles n) (n_anims n).
-Definition set_parent (v : option nat) (n : node) : node := mkNode (n_kind n) (n_doc n) v (n_first n) (n_last n) (n_next n) (n_prev n) (n_region n) (n_begin n) (n_end n) (n_id n) (n_lang n) (n_space n) (n_styles n) (n_anims n).
-Definition set_first (v : option nat) (n : node) : node := mkNode (n_kind n) (n_doc n) (n_parent n) v (n_last n) (n_next n) (n_prev n) (n_region n) (n_begin n) (n_end n) (n_id n) (n_lang n) (n_space n) (n_styles n) (n_anims n).
-Definition set_last (v : option nat) (n : node) : node := mkNode (n_kind n) (n_doc n) (n_parent n) (n_first n) v (n_next n) (n_prev n) (n_region n) (n_begin n) (n_end n) (n_id n) (n_lang n) (n_space n) (n_styles n) (n_anims n).
-Definition set_next (v : option nat) (n : node) : node := mkNode (n_kind n) (n_doc n) (n_parent n) (n_first n) (n_last n) v (n_prev n) (n_region n) (n_begin n) (n_end n) (n_id n) (n_lang n) (n_space n) (n_styles n) (n_anims n).
-Definition set_prev (v : option nat) (n : node) : node := mkNode (n_kind n) (n_doc n) (n_parent n) (n_first n) (n_last n) (n_next n) v (n_region n) (n_begin n) (n_end n) (n_id n) (n_lang n) (n_space n) (n_styles n) (n_anims n).
-Definition set_region (v : option nat) (n : node) : node := mkNode (n_kind n) (n_doc n) (n_parent n) (n_first n) (n_last n) (n_next n) (n_prev n) v (n_begin n) (n_end n) (n_id n) (n_lang n) (n_space n) (n_styles n) (n_anims n).
-Definition set_begin (v : bool) (n : node) : node := mkNode (n_kind n) (n_doc n) (n_parent n) (n_first n) (n_last n) (n_next n) (n_prev n) (n_region n) v (n_end n) (n_id n) (n_lang n) (n_space n) (n_styles n) (n_anims n).
-Definition set_end (v : bool) (n : node) : node := mkNode (n_kind n) (n_doc n) (n_parent n) (n_first n) (n_last n) (n_next n) (n_prev n) (n_region n) (n_begin n) v (n_id n) (n_lang n) (n_space n) (n_styles n) (n_anims n).
-Definition set_id (v : option nat) (n : node) : node := mkNode (n_kind n) (n_doc n) (n_parent n) (n_first n) (n_last n) (n_next n) (n_prev n) (n_region n) (n_begin n) (n_end n) v (n_lang n) (n_space n) (n_styles n) (n_anims n).
-Definition set_lang (v : bool) (n : node) : node := mkNode (n_kind n) (n_doc n) (n_parent n) (n_first n) (n_last n) (n_next n) (n_prev n) (n_region n) (n_begin n) (n_end n) (n_id n) v (n_space n) (n_styles n) (n_anims n).
-Definition set_space (v : bool) (n : node) : node := mkNode (n_kind n) (n_doc n) (n_parent n) (n_first n) (n_last n) (n_next n) (n_prev n) (n_region n) (n_begin n) (n_end n) (n_id n) (n_lang n) v (n_styles n) (n_anims n).
-Definition set_styles (v : list (prop * sval)) (n : node) : node := mkNode (n_kind n) (n_doc n) (n_parent n) (n_first n) (n_last n) (n_next n) (n_prev n) (n_region n) (n_begin n) (n_end n) (n_id n) (n_lang n) (n_space n) v (n_anims n).
-Definition set_anims (v : list (prop * sval)) (n : node) : node := mkNode (n_kind n) (n_doc n) (n_parent n) (n_first n) (n_last n) (n_next n) (n_prev n) (n_region n) (n_begin n) (n_end n) (n_id n) (n_lang n) (n_space n) (n_styles n) v.
+(* n_users: Region._users, the set of elements that reference the region (kept in ascending order; [] on
+   elements that are not regions).  n_text: the text content of a Text node, as the number of the string
+   in the harness's pool (0 = the empty string). *)
+Definition set_doc (v : option nat) (n : node) : node := mkNode (n_kind n) v (n_parent n) (n_first n) (n_last n) (n_next n) (n_prev n) (n_region n) (n_begin n) (n_end n) (n_id n) (n_lang n) (n_space n) (n_styles n) (n_anims n) (n_users n) (n_text n).
+Definition set_parent (v : option nat) (n : node) : node := mkNode (n_kind n) (n_doc n) v (n_first n) (n_last n) (n_next n) (n_prev n) (n_region n) (n_begin n) (n_end n) (n_id n) (n_lang n) (n_space n) (n_styles n) (n_anims n) (n_users n) (n_text n).
+Definition set_first (v : option nat) (n : node) : node := mkNode (n_kind n) (n_doc n) (n_parent n) v (n_last n) (n_next n) (n_prev n) (n_region n) (n_begin n) (n_end n) (n_id n) (n_lang n) (n_space n) (n_styles n) (n_anims n) (n_users n) (n_text n).
+Definition set_last (v : option nat) (n : node) : node := mkNode (n_kind n) (n_doc n) (n_parent n) (n_first n) v (n_next n) (n_prev n) (n_region n) (n_begin n) (n_end n) (n_id n) (n_lang n) (n_space n) (n_styles n) (n_anims n) (n_users n) (n_text n).
+Definition set_next (v : option nat) (n : node) : node := mkNode (n_kind n) (n_doc n) (n_parent n) (n_first n) (n_last n) v (n_prev n) (n_region n) (n_begin n) (n_end n) (n_id n) (n_lang n) (n_space n) (n_styles n) (n_anims n) (n_users n) (n_text n).
+Definition set_prev (v : option nat) (n : node) : node := mkNode (n_kind n) (n_doc n) (n_parent n) (n_first n) (n_last n) (n_next n) v (n_region n) (n_begin n) (n_end n) (n_id n) (n_lang n) (n_space n) (n_styles n) (n_anims n) (n_users n) (n_text n).
+Definition set_region (v : option nat) (n : node) : node := mkNode (n_kind n) (n_doc n) (n_parent n) (n_first n) (n_last n) (n_next n) (n_prev n) v (n_begin n) (n_end n) (n_id n) (n_lang n) (n_space n) (n_styles n) (n_anims n) (n_users n) (n_text n).
+Definition set_begin (v : bool) (n : node) : node := mkNode (n_kind n) (n_doc n) (n_parent n) (n_first n) (n_last n) (n_next n) (n_prev n) (n_region n) v (n_end n) (n_id n) (n_lang n) (n_space n) (n_styles n) (n_anims n) (n_users n) (n_text n).
+Definition set_end (v : bool) (n : node) : node := mkNode (n_kind n) (n_doc n) (n_parent n) (n_first n) (n_last n) (n_next n) (n_prev n) (n_region n) (n_begin n) v (n_id n) (n_lang n) (n_space n) (n_styles n) (n_anims n) (n_users n) (n_text n).
+Definition set_id (v : option nat) (n : node) : node := mkNode (n_kind n) (n_doc n) (n_parent n) (n_first n) (n_last n) (n_next n) (n_prev n) (n_region n) (n_begin n) (n_end n) v (n_lang n) (n_space n) (n_styles n) (n_anims n) (n_users n) (n_text n).
+Definition set_lang (v : bool) (n : node) : node := mkNode (n_kind n) (n_doc n) (n_parent n) (n_first n) (n_last n) (n_next n) (n_prev n) (n_region n) (n_begin n) (n_end n) (n_id n) v (n_space n) (n_styles n) (n_anims n) (n_users n) (n_text n).
+Definition set_space (v : bool) (n : node) : node := mkNode (n_kind n) (n_doc n) (n_parent n) (n_first n) (n_last n) (n_next n) (n_prev n) (n_region n) (n_begin n) (n_end n) (n_id n) (n_lang n) v (n_styles n) (n_anims n) (n_users n) (n_text n).
+Definition set_styles (v : list (prop * sval)) (n : node) : node := mkNode (n_kind n) (n_doc n) (n_parent n) (n_first n) (n_last n) (n_next n) (n_prev n) (n_region n) (n_begin n) (n_end n) (n_id n) (n_lang n) (n_space n) v (n_anims n) (n_users n) (n_text n).
+Definition set_anims (v : list (prop * sval)) (n : node) : node := mkNode (n_kind n) (n_doc n) (n_parent n) (n_first n) (n_last n) (n_next n) (n_prev n) (n_region n) (n_begin n) (n_end n) (n_id n) (n_lang n) (n_space n) (n_styles n) v (n_users n) (n_text n).
+Definition set_users (v : list nat) (n : node) : node := mkNode (n_kind n) (n_doc n) (n_parent n) (n_first n) (n_last n) (n_next n) (n_prev n) (n_region n) (n_begin n) (n_end n) (n_id n) (n_lang n) (n_space n) (n_styles n) (n_anims n) v (n_text n).
+Definition set_text (v : nat) (n : node) : node := mkNode (n_kind n) (n_doc n) (n_parent n) (n_first n) (n_last n) (n_next n) (n_prev n) (n_region n) (n_begin n) (n_end n) (n_id n) (n_lang n) (n_space n) (n_styles n) (n_anims n) (n_users n) v.
 
-(* ContentDocument: _regions (dict id -> region element, insertion order), _body, _initial_values *)
-Record docrec := mkDoc { d_regions : list (nat * nat) ; d_body : option nat ; d_initials : list (prop * sval) }.
-Definition set_regions (v : list (nat * nat)) (d : docrec) := mkDoc v (d_body d) (d_initials d).
-Definition set_body (v : option nat) (d : docrec) := mkDoc (d_regions d) v (d_initials d).
-Definition set_initials (v : list (prop * sval)) (d : docrec) := mkDoc (d_regions d) (d_body d) v.
+(* ContentDocument: _regions (dict id -> region element, insertion order), _body, _initial_values, and the
+   Document parameters _active_area, _cell_resolution, _px_resolution, _dar, _lang as the number of the value
+   in the harness's pool (0 = the default value; None where the parameter is optional) *)
+Record docrec := mkDoc { d_regions : list (nat * nat) ; d_body : option nat ; d_initials : list (prop * sval) ; d_active : option nat ; d_cell : nat ; d_px : nat ; d_dar : option nat ; d_dlang : nat }.
+Definition set_regions (v : list (nat * nat)) (d : docrec) := mkDoc v (d_body d) (d_initials d) (d_active d) (d_cell d) (d_px d) (d_dar d) (d_dlang d).
+Definition set_body (v : option nat) (d : docrec) := mkDoc (d_regions d) v (d_initials d) (d_active d) (d_cell d) (d_px d) (d_dar d) (d_dlang d).
+Definition set_initials (v : list (prop * sval)) (d : docrec) := mkDoc (d_regions d) (d_body d) v (d_active d) (d_cell d) (d_px d) (d_dar d) (d_dlang d).
+Definition set_active (v : option nat) (d : docrec) := mkDoc (d_regions d) (d_body d) (d_initials d) v (d_cell d) (d_px d) (d_dar d) (d_dlang d).
+Definition set_cell (v : nat) (d : docrec) := mkDoc (d_regions d) (d_body d) (d_initials d) (d_active d) v (d_px d) (d_dar d) (d_dlang d).
+Definition set_px (v : nat) (d : docrec) := mkDoc (d_regions d) (d_body d) (d_initials d) (d_active d) (d_cell d) v (d_dar d) (d_dlang d).
+Definition set_dar (v : option nat) (d : docrec) := mkDoc (d_regions d) (d_body d) (d_initials d) (d_active d) (d_cell d) (d_px d) v (d_dlang d).
+Definition set_dlang (v : nat) (d : docrec) := mkDoc (d_regions d) (d_body d) (d_initials d) (d_active d) (d_cell d) (d_px d) (d_dar d) v.
 
 Record heap := mkHeap { h_nodes : list node ; h_docs : list docrec }.
 
-Definition dnode : node := mkNode KText None None None None None None None false false None false false [] [].
-Definition ddoc : docrec := mkDoc [] None [].
+Definition dnode : node := mkNode KText None None None None None None None false false None false false [] [] [] 0.
+Definition ddoc : docrec := mkDoc [] None [] None 0 0 None 0.
 Definition nd (h : heap) (i : nat) : node := nth i (h_nodes h) dnode.
 Definition dc (h : heap) (d : nat) : docrec := nth d (h_docs h) ddoc.
 Definition nnodes (h : heap) : nat := length (h_nodes h).
@@ -116,9 +130,10 @@ Proof. decide equality; try apply lunit_eq_dec; try apply enumty_eq_dec; try app
 Definition pv_eq_dec (a b : prop * sval) : {a = b} + {a <> b}.
 Proof. decide equality; [apply sval_eq_dec | apply prop_eq_dec]. Defined.
 Definition node_eq_dec (a b : node) : {a = b} + {a <> b}.
-Proof. decide equality; try apply onat_eq_dec; try apply Bool.bool_dec; try apply kind_eq_dec; apply list_eq_dec, pv_eq_dec. Defined.
+Proof. decide equality; try apply onat_eq_dec; try apply Bool.bool_dec; try apply kind_eq_dec; try apply Nat.eq_dec;
+  try (apply list_eq_dec, pv_eq_dec); apply list_eq_dec, Nat.eq_dec. Defined.
 Definition docrec_eq_dec (a b : docrec) : {a = b} + {a <> b}.
-Proof. decide equality; try apply onat_eq_dec; try (apply list_eq_dec, pv_eq_dec).
+Proof. decide equality; try apply onat_eq_dec; try apply Nat.eq_dec; try (apply list_eq_dec, pv_eq_dec).
   apply list_eq_dec. decide equality; apply Nat.eq_dec. Defined.
 Definition heap_eq_dec (a b : heap) : {a = b} + {a <> b}.
 Proof. decide equality; apply list_eq_dec; [apply docrec_eq_dec | apply node_eq_dec]. Defined.
